@@ -95,13 +95,91 @@ pub fn case() -> BoxedStrategy<CarrierCase> {
         .boxed()
 }
 
+/// Carriers whose resolution is finer than the column's: `timestamp` counts milliseconds, `time::OffsetDateTime`
+/// and `chrono::DateTime<Utc>` count nanoseconds. The documentation ("any precision finer than 1ms will be lost")
+/// leaves one encoding: the millisecond the instant lies in, i.e. floor(ns / 10^6) — also before the epoch.
+#[derive(Debug, Clone, Serialize, Deserialize)]
+pub struct FinerCase {
+    /// 0 = time::OffsetDateTime, 1 = chrono::DateTime<Utc>
+    pub carrier: u8,
+    pub millis: i64,
+    pub sub_ms_nanos: u32,
+    /// (time only) the same instant expressed at this UTC offset, seconds
+    pub offset_secs: i32,
+}
+
+pub fn finer_oracle(c: &FinerCase) -> Verdict {
+    let t = MType::Native(Nat::Timestamp);
+    let ct = column_type(&t);
+    let nanos: i128 = c.millis as i128 * 1_000_000 + c.sub_ms_nanos as i128;
+    let want_ms = nanos.div_euclid(1_000_000) as i64;
+    let mut sv = SerializedValues::new();
+    let name = if c.carrier == 0 { "time::OffsetDateTime" } else { "chrono::DateTime<Utc>" };
+    let back_nanos: i128;
+    if c.carrier == 0 {
+        let off = time::UtcOffset::from_whole_seconds(c.offset_secs).map_err(|e| bad("harness", e.to_string()))?;
+        let v = time::OffsetDateTime::from_unix_timestamp_nanos(nanos).map_err(|e| bad("harness", e.to_string()))?.to_offset(off);
+        sv.add_value(&v, &ct).map_err(|e| bad("encode_rejected", format!("{name} {v:?}: {e}")))?;
+        let cell = cell_of(&sv)?;
+        let got: time::OffsetDateTime = decode_as(&ct, &cell).map_err(|e| bad("decode_failed_driver_bytes", e))?;
+        back_nanos = got.unix_timestamp_nanos();
+        vassert_eq!(cell, want_ms.to_be_bytes().to_vec(), "wrong_bytes", "{name} {v:?} (unix nanos {nanos}) into timestamp");
+    } else {
+        let v = chrono::DateTime::<chrono::Utc>::from_timestamp(nanos.div_euclid(1_000_000_000) as i64, nanos.rem_euclid(1_000_000_000) as u32)
+            .ok_or_else(|| bad("harness", format!("chrono cannot hold {nanos}")))?;
+        sv.add_value(&v, &ct).map_err(|e| bad("encode_rejected", format!("{name} {v:?}: {e}")))?;
+        let cell = cell_of(&sv)?;
+        let got: chrono::DateTime<chrono::Utc> = decode_as(&ct, &cell).map_err(|e| bad("decode_failed_driver_bytes", e))?;
+        back_nanos = got.timestamp() as i128 * 1_000_000_000 + got.timestamp_subsec_nanos() as i128;
+        vassert_eq!(cell, want_ms.to_be_bytes().to_vec(), "wrong_bytes", "{name} {v:?} (unix nanos {nanos}) into timestamp");
+    }
+    vassert_eq!(back_nanos, want_ms as i128 * 1_000_000, "roundtrip_driver_bytes", "{name}: unix nanos {nanos} came back as another millisecond");
+    Ok(CaseInfo::new(c.sub_ms_nanos != 0)
+        .class(name.to_string())
+        .class_if(c.sub_ms_nanos != 0 && nanos < 0, "pre_epoch_sub_millisecond")
+        .class_if(c.carrier == 0 && c.offset_secs != 0, "non_utc_offset"))
+}
+
+fn cell_of(sv: &SerializedValues) -> Result<Vec<u8>, (String, String)> {
+    let mut req = Vec::new();
+    sv.write_to_request(&mut req);
+    let mut rd = Rd::new(&req[2..]);
+    match rd.value() {
+        Ok(WValue::Bytes(b)) if rd.is_empty() => Ok(b),
+        other => Err(bad("cell_framing", format!("not one non-null [value]: {other:?}"))),
+    }
+}
+
+fn decode_as<T: for<'a> scylla_cql_core::deserialize::value::DeserializeValue<'a, 'a>>(ct: &scylla_cql_core::frame::response::result::ColumnType<'_>, cell: &[u8]) -> Result<T, String> {
+    T::type_check(ct).map_err(|e| e.to_string())?;
+    let b = bytes::Bytes::copy_from_slice(cell);
+    let r = T::deserialize(ct, Some(scylla_cql_core::deserialize::FrameSlice::new(&b))).map_err(|e| e.to_string());
+    r
+}
+
+pub fn finer_case() -> BoxedStrategy<FinerCase> {
+    (
+        0u8..2,
+        prop_oneof![4 => -5i64..=5, 2 => -86_400_005i64..=-86_399_995, 3 => -(1i64 << 47)..(1i64 << 47), 1 => -1_000_000i64..1_000_000],
+        prop_oneof![2 => Just(0u32), 1 => Just(1u32), 1 => Just(499_999u32), 1 => Just(500_000u32), 1 => Just(999_999u32), 3 => 0u32..1_000_000],
+        prop_oneof![2 => Just(0i32), 1 => -50_400i32..=50_400],
+    )
+        .prop_map(|(carrier, millis, sub_ms_nanos, offset_secs)| FinerCase { carrier, millis, sub_ms_nanos, offset_secs })
+        .boxed()
+}
+
 pub fn run(ctx: &Ctx, rep: &mut Report) {
+    run_prop_par(rep, "finer_carriers", ctx.tier.pick(60_000, 2_000_000), ncpu(), finer_case, finer_oracle);
     let n = pools().len();
     rep.notes.push(format!("carriers: {n} Rust carrier types with at least one documented-compatible column type in the universe"));
     run_prop_par(rep, "carriers", ctx.tier.pick(150_000, 4_000_000), ncpu(), case, oracle);
 }
 
 pub fn replay(rep: &mut Report, check: &str, case: &Value) -> bool {
+    if check == "finer_carriers" {
+        replay_case::<FinerCase, _>(rep, "finer_carriers", case, finer_oracle);
+        return true;
+    }
     if check != "carriers" {
         return false;
     }
